@@ -52,11 +52,16 @@ Proof.
   unfold program_run in Hrun. rewrite multi_execute_passes in Hrun.
   destruct (run_passes P seeds refs m qq) as [[f1 f2]|] eqn:Ep; [|discriminate]. cbn [bind] in Hrun. exists f1, f2. split; [reflexivity|].
   unfold finish in Hrun. cbn [fst snd] in Hrun.
-  assert (Hj : forall joined sep, results_resolve (f1 ++ f2) maxdiff = Ok (joined, sep) -> forall w, In w joined -> joined_from (f1 ++ f2) w).
-  { intros joined sep E w Hw. destruct (join_guard _ _ _ _ w E Hw) as (a & b & Ha & Hb & _ & _ & _ & _ & Ej & _). exists a, b. repeat split; assumption. }
+  (* repair F12: resolve receives f1 ++ [row for row in f2 if row not in f1], a sub-list of f1 ++ f2 *)
+  set (rows' := f1 ++ filter (fun w => negb (row_in w f1)) f2) in *.
+  assert (Hincl : forall w, In w rows' -> In w (f1 ++ f2)).
+  { intros w Hw. unfold rows' in Hw. apply in_app_or in Hw. apply in_or_app. destruct Hw as [Hw|Hw]; [left; exact Hw | right; apply filter_In in Hw; apply Hw]. }
+  assert (Hj : forall joined sep, results_resolve rows' maxdiff = Ok (joined, sep) -> forall w, In w joined -> joined_from (f1 ++ f2) w).
+  { intros joined sep E w Hw. destruct (join_guard _ _ _ _ w E Hw) as (a & b & Ha & Hb & _ & _ & _ & _ & Ej & _). exists a, b.
+    repeat split; [apply Hincl; exact Ha | apply Hincl; exact Hb | exact Ej]. }
   destruct m.
   - (* best *)
-    destruct (results_resolve (f1 ++ f2) maxdiff) as [[joined sep]|] eqn:Er; [|discriminate]. cbn [bind fst snd o_main o_1 o_2] in Hrun. injection Hrun as <-.
+    destruct (results_resolve rows' maxdiff) as [[joined sep]|] eqn:Er; [|discriminate]. cbn [bind fst snd o_main o_1 o_2] in Hrun. injection Hrun as <-.
     cbn [o_main o_1 o_2 opt_rows app]. split; [|split; [intros w []|split; reflexivity]].
     intros w Hw. apply ModesProofs1.fs_in in Hw. apply sort_by_in in Hw. apply in_app_or in Hw. destruct Hw as [Hw|Hw].
     + right. split; [discriminate | apply (Hj joined sep eq_refl w Hw)].
@@ -70,13 +75,13 @@ Proof.
     rewrite Ef. split; [intros w Hw; left; apply in_or_app; left; exact Hw|]. split; [|reflexivity].
     intros w Hw. rewrite app_nil_r in Hw. apply in_or_app. right. exact Hw.
   - (* joined *)
-    destruct (results_resolve (f1 ++ f2) maxdiff) as [[joined sep]|] eqn:Er; [|discriminate]. cbn [bind fst snd o_main o_1 o_2] in Hrun. injection Hrun as <-.
+    destruct (results_resolve rows' maxdiff) as [[joined sep]|] eqn:Er; [|discriminate]. cbn [bind fst snd o_main o_1 o_2] in Hrun. injection Hrun as <-.
     cbn [o_main o_1 o_2 opt_rows].
     assert (Hm : forall w, In w (filter_subsequent joined) -> joined_from (f1 ++ f2) w) by (intros w Hw; apply ModesProofs1.fs_in in Hw; apply (Hj joined sep eq_refl w Hw)).
     split; [intros w Hw; right; split; [discriminate | apply Hm; exact Hw]|]. split; [|split; [reflexivity | split; [eexists; reflexivity | exact Hm]]].
-    intros w Hw. rewrite app_nil_r in Hw. apply (results_resolve_sep_in _ _ _ _ Er w Hw).
+    intros w Hw. rewrite app_nil_r in Hw. apply Hincl. apply (results_resolve_sep_in _ _ _ _ Er w Hw).
   - (* all *)
-    destruct (results_resolve (f1 ++ f2) maxdiff) as [[joined sep]|] eqn:Er; [|discriminate]. cbn [bind fst snd o_main o_1 o_2] in Hrun. injection Hrun as <-.
+    destruct (results_resolve rows' maxdiff) as [[joined sep]|] eqn:Er; [|discriminate]. cbn [bind fst snd o_main o_1 o_2] in Hrun. injection Hrun as <-.
     cbn [o_main o_1 o_2 opt_rows].
     assert (Hm : forall w, In w (filter_subsequent joined) -> joined_from (f1 ++ f2) w) by (intros w Hw; apply ModesProofs1.fs_in in Hw; apply (Hj joined sep eq_refl w Hw)).
     split; [intros w Hw; right; split; [discriminate | apply Hm; exact Hw]|]. split; [intros w Hw; exact Hw|]. split; [reflexivity | split; [reflexivity | exact Hm]].
